@@ -389,3 +389,5 @@ func VerifRestoreModes(debug, trace bool) {
 	is.SetDebugMode(debug)
 	is.SetTraceMode(trace)
 }
+
+func VerifDebugMode() bool { return is.DebugMode() }
